@@ -47,7 +47,7 @@ def _py_shape(rec: dict) -> str:
     return ",".join(sorted(rec["shape"])) or "plain"
 
 
-def py_case(rec: dict, other: str, ctx: Dict[str, Any], via_linter: bool = False) -> List[dict]:
+def py_case(rec: dict, other: str, ctx: Dict[str, Any], via_linter: bool = False, vstyle: str = "plain") -> List[dict]:
     """Run one enumerated string; return the list of violations (dicts for Report.violation)."""
     text = R.py_text(rec["s"], other)
     ref, referr = R.ref_format(text, ctx)
@@ -59,8 +59,10 @@ def py_case(rec: dict, other: str, ctx: Dict[str, Any], via_linter: bool = False
         kind, out, info = _python_via_linter(text, ctx)
     else:
         kind, out, info, _tf = R.real_python(text, ctx)
-    payload = {"part": "python", "rec": rec, "other": other, "text": text, "via_linter": via_linter}
+    payload = {"part": "python", "rec": rec, "other": other, "text": text, "via_linter": via_linter, "vstyle": vstyle}
     base = {"part": "python", "entry": "linter" if via_linter else "process"}
+    if vstyle != "plain":
+        base["values"] = vstyle       # values that start / end with characters of the literal alphabet
     vs = []
     if rec["valid"]:
         if kind == "exc":
@@ -128,17 +130,32 @@ def _thin(vs: List[dict], seen: Dict[str, int]) -> List[dict]:
     return vs
 
 
+EDGE_OTHERS = [" ", ")", "\n", "'"]
+
+
 def _py_chunk(arg):
     recs, seed, maxlen = arg
-    ctx = R.py_context(maxlen)
+    ctxs: Dict[tuple, Dict[str, Any]] = {}
+
+    def ctx_for(style: str, other: str):
+        key = (style, other if style == "other" else "")
+        if key not in ctxs:
+            ctxs[key] = R.py_context(maxlen, style, other)
+        return ctxs[key]
+
     out, n, nontriv = [], 0, []
     seen: Dict[str, int] = {}
     for idx, rec in recs:
-        others = [" "]
-        if "O" in rec["s"] and idx % 3 == 0:     # a third of them also with another "other" character
-            others.append(random.Random(seed * 1000003 + idx).choice(R.PY_OTHER[1:]))
-        for o in others:
-            out += _thin(py_case(rec, o, ctx), seen)
+        has_o = "O" in rec["s"]
+        runs = [(" ", "plain")]
+        if has_o and idx % 3 == 0:     # a third of them also with another "other" character
+            runs.append((random.Random(seed * 1000003 + idx).choice(R.PY_OTHER[1:]), "plain"))
+        if rec["valid"] and any(g["k"] == "fld" for g in rec["segs"]):
+            # values that begin / end with a character that also occurs in the adjacent literals
+            runs += [(o, "other") for o in (EDGE_OTHERS if has_o else [" "])]
+            runs += [(" ", vs) for vs in ("name", "dot", "punct")]
+        for o, vs in runs:
+            out += _thin(py_case(rec, o, ctx_for(vs, o), vstyle=vs), seen)
             n += 1
         if any(c in ("LB", "RB") for c in rec["s"]):
             nontriv.append(idx)
@@ -282,7 +299,9 @@ def run_placeholder(rep: Report, tier: str, seed: int, future) -> None:
 # ------------------------------------------------------------------ python, code -> spec (longer sources)
 LONG_PLAIN = {"a": "col_a", "tbl": "T1x", "col_1": "c_one", "s": "ess"}
 LONG_DOTTED = {"a.b": "dotAB", "x.y.z": "xyz_v"}
-LONG_LITS = ["SELECT ", "a.b", " FROM ", "t1", ", ", "x: y", "1.5", " -- hi!\n", "WHERE c = ", "'", " ", "\n", "é", "(", ")"]
+LONG_LITS = ["SELECT ", "a.b", " FROM ", "t1", ", ", "x: y", "1.5", " -- hi!\n", "WHERE c = ", "'", " ", "\n", "é", "(", ")",
+             "))", "((", "  ", "\n\n", "''", "aa", ")) ", "MAX("]
+LONG_AFFIX = ["", "", ")", "(", " ", "\n", "'", "a", ".", "))", "  "]      # what a value may start / end with
 LONG_VALID = [("{a}", ""), ("{tbl}", ""), ("{col_1}", ""), ("{s}", ""), ("{a!s}", "conv"), ("{a:s}", "spec"),
               ("{a:}", "emptyspec"), ("{a.b}", "dotted"), ("{x.y.z}", "dotted"), ("{a.b:s}", "dotted,spec"),
               ("{a.b!s}", "conv,dotconv,dotted"), ("{a.b:}", "dotted,emptyspec"), ("{{", "esc"), ("}}", "esc")]
@@ -298,7 +317,7 @@ def _cls(ch: str) -> str:
 
 
 def gen_long(seed: int, n: int):
-    """Seeded longer format strings: (text, shape tags as in Render!PyShape, has an invalid part)."""
+    """Seeded longer format strings: (text, shape tags as in Render!PyShape, has an invalid part, values)."""
     rnd = random.Random(seed ^ 0xC09)
     out, seen = [], set()
     while len(out) < n:
@@ -319,10 +338,14 @@ def gen_long(seed: int, n: int):
         if bad:
             parts.insert(rnd.randrange(len(parts) + 1), rnd.choice(LONG_INVALID))
         text = "".join(parts)
+        # the values: the base ones, or (half of the cases) with a prefix / suffix that also occurs in the literals
+        vals = dict(LONG_PLAIN, **LONG_DOTTED)
+        if rnd.random() < 0.5:
+            vals = {k2: rnd.choice(LONG_AFFIX) + v + rnd.choice(LONG_AFFIX) for k2, v in sorted(vals.items())}
         if text in seen:
             continue
         seen.add(text)
-        out.append((text, ",".join(sorted(tags)) or "plain", bad))
+        out.append((text, ",".join(sorted(tags)) or "plain", bad, vals))
     return out
 
 
@@ -331,10 +354,11 @@ def _cps(txt: str):
 
 
 def _long_chunk(arg):
-    ctx_real = dict(LONG_PLAIN, sqlfluff=dict(LONG_DOTTED))
-    flat = [{"name": _cps(k), "val": _cps(v)} for k, v in list(LONG_PLAIN.items()) + list(LONG_DOTTED.items())]
     out = []
-    for idx, (text, shape, bad) in arg:
+    for idx, (text, shape, bad, vals) in arg:
+        ctx_real = {k: v for k, v in vals.items() if "." not in k}
+        ctx_real["sqlfluff"] = {k: v for k, v in vals.items() if "." in k}
+        flat = [{"name": _cps(k), "val": _cps(v)} for k, v in vals.items()]
         base = {"ev": "PyFormat", "cls": [_cls(c) for c in text], "chr": _cps(text), "ctx": flat}
         kind, rendered, info, _tf = R.real_python(text, ctx_real)
         ev = dict(base, outcome={"render": "render", "tmp": "tmp", "exc": "exc"}[kind],
@@ -342,7 +366,8 @@ def _long_chunk(arg):
         ref, _referr = R.ref_format(text, ctx_real)
         twin = dict(base, outcome="render" if ref is not None else "tmp", out=_cps(ref) if ref is not None else [])
         out.append(({"id": f"py{idx}", "events": [ev]}, {"id": f"fx{idx}", "events": [twin]},
-                    {"text": text, "shape": shape, "kind": kind, "info": info, "rendered": rendered, "ref": ref}))
+                    {"text": text, "shape": shape, "kind": kind, "info": info, "rendered": rendered, "ref": ref,
+                     "vals": vals, "affixed": vals != dict(LONG_PLAIN, **LONG_DOTTED)}))
     return out
 
 
@@ -369,6 +394,8 @@ def run_long(rep: Report, tier: str, seed: int) -> None:
     for r in val.rejected:
         mt = meta[r["id"]]
         sig = {"part": "python", "entry": "process", "shape": mt["shape"]}
+        if mt["affixed"] and r["clause"] == "RenderedEqualsFormat":
+            sig["values"] = "affixed"
         if mt["kind"] == "exc":
             sig.update(outcome="exception", exc=mt["info"]["exc"], site=mt["info"]["site"])
         elif mt["kind"] == "tmp":
@@ -380,7 +407,7 @@ def run_long(rep: Report, tier: str, seed: int) -> None:
         rep.violation(r["clause"], sig,
                       f"generated format string {mt['text']!r}: sqlfluff -> {mt['kind']} {mt['rendered']!r} {mt['info']}; "
                       f"str.format -> {mt['ref']!r}; RenderTrace rejects with {r['clause']}",
-                      {"part": "python-long", "text": mt["text"], "shape": mt["shape"]})
+                      {"part": "python-long", "text": mt["text"], "shape": mt["shape"], "vals": mt["vals"]})
     for a in impl:
         mt = meta[a["id"]]
         if mt["text"].count("{") - 2 * mt["text"].count("{{") >= 2:
@@ -412,7 +439,7 @@ def replay(path, tier, seed):
     if case["part"] == "python-long":
         from ..tlc import validate_traces
         from .c08 import TRACE_CONSTS
-        a, _b, mt = _long_chunk([(0, (case["text"], case["shape"], False))])[0]
+        a, _b, mt = _long_chunk([(0, (case["text"], case["shape"], False, case.get("vals") or dict(LONG_PLAIN, **LONG_DOTTED)))])[0]
         val = validate_traces("RenderTrace", [a], constants=TRACE_CONSTS)
         if val.rejected:
             print(f"VIOLATION property={PROP} replay={path}")
@@ -422,8 +449,8 @@ def replay(path, tier, seed):
         return 0
     rec = case.get("rec")
     if case["part"] == "python":
-        ctx = R.py_context(max(7, len(rec["s"])))
-        vs = py_case(rec, case["other"], ctx, via_linter=case.get("via_linter", False))
+        ctx = R.py_context(max(8, len(rec["s"])), case.get("vstyle", "plain"), case["other"])
+        vs = py_case(rec, case["other"], ctx, via_linter=case.get("via_linter", False), vstyle=case.get("vstyle", "plain"))
     else:
         vs = ph_case(rec, case["other"])
     if vs:
